@@ -877,6 +877,19 @@ theorem inv_newIter {s s' : State} {r} (hi : Inv s) (hs : stepNewIter s r = some
     all_goals simp at hs
   next => simp at hs
 
+theorem inv_fallback {s s' : State} {r} (hi : Inv s) (hs : stepFallback s r = some s') : Inv s' := by
+  unfold stepFallback at hs
+  split at hs
+  next q hq =>
+    split at hs
+    next hpc =>
+      split at hs
+      · simp at hs; subst hs
+        exact inv_req_same hi hq rfl rfl rfl rfl rfl (fun _ h => h) rfl rfl rfl rfl rfl rfl
+      · simp at hs
+    all_goals simp at hs
+  next => simp at hs
+
 theorem inv_step {s s' : State} (a : Action) (hi : Inv s) (hs : step s a = some s') : Inv s' := by
   cases a with
   | newCfg p => simp [step] at hs; subst hs; exact inv_newCfg p hi
@@ -892,6 +905,7 @@ theorem inv_step {s s' : State} (a : Action) (hi : Inv s) (hs : step s a = some 
   | after r => exact inv_after hi hs
   | forget i => exact inv_forget hi hs
   | newIter r => exact inv_newIter hi hs
+  | fallback r => exact inv_fallback hi hs
   | tick => simp [step] at hs; subst hs; exact inv_tick hi
 
 theorem inv_reachable {s : State} (h : Reachable s) : Inv s := by
